@@ -820,7 +820,11 @@ def result_inspected(fn, bb, depth=0):
     return False, "result only flows into adapters whose value is dropped"
 
 
-def presence_edges(fn, bb):
+PRESENCE_PRESERVING = re.compile(r"option::Option(::)?<.*>::(ok_or|ok_or_else|map|as_ref|as_mut|as_deref|as_deref_mut|copied|cloned|inspect)$|"
+                                r"result::Result(::)?<.*>::(ok|map|map_err|as_ref|as_mut|inspect|inspect_err|copied|cloned)$")
+
+
+def presence_edges(fn, bb, _depth=0):
     """For a call at `bb` yielding Option/Result/bool, the CFG edges taken when the value is
     'present' (Some/Ok/true) and 'absent' (None/Err/false).  Looks through is_none/is_some/is_ok/is_err/`!`."""
     t = fn.blocks[bb]["t"]
@@ -838,6 +842,14 @@ def presence_edges(fn, bb):
         for sw in switch_edges_on_local(fn, dest):
             out["present"].append((sw["sw"], sw["true"]))
             out["absent"].append((sw["sw"], sw["false"]))
+    # presence-preserving adapters (`x.ok_or(e)?`, `x.as_mut().map(..)`, `r.map_err(..)?`): Some/Ok stays Some/Ok
+    if _depth < 4:
+        for (b2, how, x) in local_uses(fn, dest):
+            if how == "arg" and x["t"] == "call" and x["args"] and op_place(x["args"][0]) is not None and op_place(x["args"][0])[0] == dest:
+                if PRESENCE_PRESERVING.search(fn.callee_of(x) or ""):
+                    sub = presence_edges(fn, b2, _depth + 1)
+                    out["present"].extend(sub["present"])
+                    out["absent"].extend(sub["absent"])
     # adapters
     for (b2, how, x) in local_uses(fn, dest):
         if how != "arg":
